@@ -222,6 +222,29 @@ def _enumerate_cases(tier, seed, classes="discretizers"):
                 for mf in MIN_FREQS[tier]:
                     if valid_target(cells, nan, "binary"):
                         cases.append({"cls": "ContinuousDiscretizer", "kind": "QNT", "cells": [list(c) for c in cells], "nan": list(nan) if nan else None, "min_freq": mf, "target": "binary", "seed": seed, "companion": None})
+        # comb family for ContinuousDiscretizer: m over-represented values of c rows each and a tail of t single-row values
+        # (placed after, before, or in the middle of the frequent values)
+        for mf in (0.05, 0.1):
+            for c in (2, 3):
+                for m in range(1, 16 if tier == "quick" else 19):
+                    for t in (0, 3, 6, 9, 14) if tier == "quick" else range(0, 16):
+                        n_rows = m * c + t
+                        if n_rows < 8 or c / n_rows < 1 / round(1 / mf):  # the m values must really be over-represented
+                            continue
+                        for place in ("after", "before", "middle"):
+                            freq = [(c, 0) if j % 2 else (0, c) for j in range(m)]
+                            tail = [(1, 0) if j % 2 else (0, 1) for j in range(t)]
+                            cells = freq + tail if place == "after" else (tail + freq if place == "before" else freq[: m // 2] + tail + freq[m // 2 :])
+                            transitions += 1
+                            cases.append({"cls": "ContinuousDiscretizer", "kind": "QNT", "cells": [list(x) for x in cells], "nan": None, "min_freq": mf, "target": "binary", "seed": seed, "companion": None})
+        # quantitative values around zero (a cut point exactly at 0.0; rare negative values merged upwards)
+        for cls in ("QuantitativeDiscretizer", "Discretizer"):
+            tabs, tr = space.construct([(1, 0), (0, 1), (2, 1), (5, 0), (3, 2)], 2, 4, ordered=True)
+            for cells in tabs[:: 3 if tier == "quick" else 1]:
+                for shift in (-1.0, -2.0):
+                    for mf in (0.34, 0.1):
+                        if valid_target(cells, None, "binary"):
+                            cases.append({"cls": cls, "kind": "QNT", "cells": [list(c) for c in cells], "nan": None, "min_freq": mf, "target": "binary", "seed": seed, "companion": None, "scale": [1.0, shift]})
         # companion features (a second feature that gets dropped / survives) on the k<=2 tables
         for kind in ("QNT", "ORD", "CAT"):
             a = list(alpha)
